@@ -25,6 +25,10 @@ const c26Day = uint64(24 * time.Hour)
 
 func c26Gen(rng *core.Rng, tier string) *harness.Plan {
 	p := &harness.Plan{Seed: rng.Uint64(), Params: map[string]int64{}}
+	if rng.Chance(0.12) {
+		c26ByzGen(rng, tier, p) // cluster part with a Byzantine leader, see c26byz.go
+		return p
+	}
 	p.Params["chains"] = int64(1 + rng.IntN(4))
 	n := 20 + rng.IntN(80)
 	if tier == "thorough" {
@@ -53,6 +57,9 @@ type c26Chain struct {
 }
 
 func c26Exec(p *harness.Plan) *harness.Outcome {
+	if p.P("byz_leader", 0) == 1 {
+		return c26ByzExec(p)
+	}
 	c := newCtx("C26")
 	f, err := storerig.NewFix(7)
 	if err != nil {
